@@ -239,6 +239,27 @@ struct Run {
         if (walked) { if (!present) changed_after_walk = true; if (t->root != rootb) rootchange_after_walk = true; }
         if (m.size() > maxn) maxn = m.size();
     }
+    // calls the library documents as refused (EINVAL): they must fail, say so, and change nothing
+    void do_refused(const std::string &k) {
+        int kind = (int)s.range(0, 5);
+        Buf kb(k); std::string v = gen_val(false); Buf vb(v);
+        qtreetbl_obj_t *rootb = t->root;
+        errno = poison; bool ok; const char *what;
+        switch (kind) {
+            case 0: ok = qtreetbl_putobj(t, nullptr, kb.n, vb.p, vb.n); what = "putobj(NULL name)"; break;
+            case 1: ok = qtreetbl_putobj(t, kb.p, 0, vb.p, vb.n); what = "putobj(name size 0)"; break;
+            case 2: { size_t sz = 0; ok = qtreetbl_getobj(t, nullptr, kb.n, &sz, s.boolean()) != nullptr; what = "getobj(NULL name)"; break; }
+            case 3: { size_t sz = 0; ok = qtreetbl_getobj(t, kb.p, 0, &sz, s.boolean()) != nullptr; what = "getobj(name size 0)"; break; }
+            case 4: ok = qtreetbl_removeobj(t, nullptr, kb.n); what = "removeobj(NULL name)"; break;
+            default: ok = qtreetbl_getnext(t, nullptr, s.boolean()); what = "getnext(NULL obj)";
+        }
+        int e = errno;
+        c.op("refused call %s, key %s [%s]", what, hexs(k, 12).c_str(), m.count(k) ? "present" : "absent");
+        if (ok) c.fail(FUNC, "tree:invalid-accepted", "%s succeeded, documented EINVAL", what);
+        if (e != EINVAL) c.fail(FUNC, "tree:invalid-errno", "%s: errno=%d, documented EINVAL", what, e);
+        if (t->root != rootb) c.fail(FUNC, "tree:invalid-modified", "%s changed the root of the tree", what);
+        full_compare("refused call");
+    }
     void do_get(const std::string &k) {
         int api = strkeys ? (int)s.pick({3, 1, 2}) : 2;   // get, getstr, getobj
         bool newmem = s.boolean();
@@ -527,10 +548,10 @@ struct Run {
         if (walks && !setcmp) { setcmp = true; qtreetbl_set_compare(t, user_cmp); }   // budgeted comparator needed
         bool nearest = m3 || m4 || c.mode == "C11" || c.mode == "C12";
         // weights: put get remove size min max clear walk nearest bulk fullcompare
-        std::vector<int> w = {30, 18, 24, 3, 4, 4, 1, 0, 0, 0, 2};
+        std::vector<int> w = {30, 18, 24, 3, 4, 4, 1, 0, 0, 0, 2, 2};
         if (m2) { w[9] = 2; w[1] = 10; }
-        if (m3) { w = {14, 3, 10, 1, 1, 1, 1, 16, 5, 0, 1}; }
-        if (m4) { w = {14, 3, 10, 1, 1, 1, 1, 6, 22, 0, 1}; }
+        if (m3) { w = {14, 3, 10, 1, 1, 1, 1, 16, 5, 0, 1, 1}; }
+        if (m4) { w = {14, 3, 10, 1, 1, 1, 1, 6, 22, 0, 1, 1}; }
         if (walks && !m3 && !m4) { w[7] = 6; w[8] = 6; w[9] = 1; }
         (void)nearest; (void)m1;
         int maxops = c.tier ? 5000 : 600;
@@ -549,6 +570,7 @@ struct Run {
                 case 7: op_walks(); what = "walk"; break;
                 case 8: do_nearest(); what = "find_nearest"; break;
                 case 9: bulk_phase(); what = "bulk"; break;
+                case 11: do_refused(universe[s.range(0, (long)U - 1)]); what = "refused call"; break;
                 default: c.op("compare-all"); full_compare("full comparison"); what = "compare";
             }
             check_size(what);
